@@ -570,5 +570,5 @@ func snapSummary(s *rig.Snapshot) string {
 	if s == nil {
 		return ""
 	}
-	return "; goroutines: " + clipStr(fmt.Sprint(s.Summary()), 1500)
+	return "; goroutines: " + clipStr(strings.Join(s.Detail(), " | "), 6000)
 }
